@@ -607,7 +607,7 @@ class FixedChooser:
 
 SMALL_LENS = [0, 1, 2, 3, 4, 5, 6, 7, 8, 11, 12]
 EDGE_LENS = [252, 253, 254, 255, 256, 257]
-TEXT_POOL = ['a', 'Z', '0', ' ', '\n', 'é', '€', '\U0001F600', '\x00', '\x7f', '߿', '￿']
+TEXT_POOL = ['a', 'Z', '0', ' ', '\n', 'é', '€', '\U0001F600', '\x00', '\x7f', '߿', '￿', '\ufeff', '\ufeff', '\u200b']
 
 
 def gen_len(ch, big):
